@@ -293,7 +293,8 @@ class Vector():
 		if length:
 			assert isinstance(length, int)
 			dtype = infer_dtype([default_element])
-			if typesafe:
+			if typesafe and default_element is not None:
+				# (a None default fills the vector with None: it has to stay nullable)
 				dtype = dtype.with_nullable(False)
 			return cls([default_element for _ in range(length)], dtype=dtype)
 		dtype = infer_dtype([default_element]) if default_element is not None else DataType(object)
